@@ -129,8 +129,63 @@ func (fn *c16BGVFunc) apply(set c16BGVSet, in []uint64, scale rlwe.Scale) []uint
 	return append([]uint64(nil), out.Coeffs[0]...)
 }
 
+// c16BGVScratch: ShallowCopy of every mpbgv protocol shares no scratch buffer with the original
+func c16BGVScratch(c *Ctx, set c16BGVSet) {
+	flood := ring.DiscreteGaussian{Sigma: 3.2, Bound: 19.2}
+	e2s, _ := mpbgv.NewEncToShareProtocol(set.bp, flood)
+	c14SharedScratch(c, "C16", "mpbgv.EncToShareProtocol", e2s, e2s.ShallowCopy())
+	s2e, _ := mpbgv.NewShareToEncProtocol(set.bp, flood)
+	c14SharedScratch(c, "C16", "mpbgv.ShareToEncProtocol", s2e, s2e.ShallowCopy())
+	mt, _ := mpbgv.NewMaskedTransformProtocol(set.bp, set.bp, flood)
+	mc := mt.ShallowCopy()
+	c14SharedScratch(c, "C16", "mpbgv.MaskedTransformProtocol", mt, mc)
+	c14SharedScratch(c, "C16", "mpbgv.MaskedTransformProtocol(copy_of_copy)", mc, mc.ShallowCopy())
+	rf, _ := mpbgv.NewRefreshProtocol(set.bp, flood)
+	c14SharedScratch(c, "C16", "mpbgv.RefreshProtocol", rf, rf.ShallowCopy())
+}
+
+// c16BGVOutParams: masked transform from parameters with FEWER primes to parameters with MORE primes (same ring degree,
+// same t), on the protocol instance and on its ShallowCopy: the output must decrypt to the message under the output key.
+func c16BGVOutParams(c *Ctx) {
+	in := c16NewBGV("bgvIn2", 4, []int{40, 45}, []int{56}, 97)
+	out := c16NewBGV("bgvOut3", 4, []int{42, 44, 46}, []int{55}, 97)
+	flood := ring.DiscreteGaussian{Sigma: 3.2, Bound: 19.2}
+	p0, err := mpbgv.NewMaskedTransformProtocol(in.bp, out.bp, flood)
+	if err != nil {
+		panic(err)
+	}
+	for _, useCopy := range []bool{false, true} {
+		p := p0
+		if useCopy {
+			p = p0.ShallowCopy()
+		}
+		kIn, kOut := c14GenKeys(in.c14Set, 1), c14GenKeys(out.c14Set, 1)
+		coeffs, ct := c16BGVCt(c, in, kIn, in.maxQ(), 1)
+		_, crs := c14CRS(c)
+		detail := Try(func() string {
+			crp := p.SampleCRP(out.maxQ(), crs)
+			sh := p.AllocateShare(in.maxQ(), out.maxQ())
+			if err := p.GenShare(kIn.sk[0], kOut.sk[0], ct, crp, nil, &sh); err != nil {
+				return "GenShare_error"
+			}
+			res := bgv.NewCiphertext(out.bp, 1, out.maxQ())
+			if err := p.Transform(ct, nil, crp, sh, res); err != nil {
+				return "Transform_error"
+			}
+			have := make([]uint64, len(coeffs))
+			if err := out.enc.Decode(rlwe.NewDecryptor(out.bp, kOut.ideal).DecryptNew(res), have); err != nil || !slices.Equal(have, coeffs) {
+				return "refreshed_message_differs"
+			}
+			return ""
+		})
+		c.Probe("transform_out_params", fmt.Sprintf("bgv in=2primes out=3primes shallow_copy=%t", useCopy), "C16-bgv-shallowcopy-tmpPt", detail)
+	}
+}
+
 func c16BGV(c *Ctx, ns []int) {
+	c14Guard(c, "C16-harness-panic", "c16BGVOutParams", func() { c16BGVOutParams(c) })
 	for si, set := range c16BGVSets() {
+		c14Guard(c, "C16-harness-panic", "c16BGVScratch", func() { c16BGVScratch(c, set) })
 		funcs := c16BGVFuncs(set)
 		for ni, n := range ns {
 			for lin := 0; lin <= set.maxQ(); lin++ {
@@ -313,6 +368,19 @@ func c16BGVSharing(c *Ctx, set c16BGVSet, n, lvl int, sigma float64) {
 		detail = "sum_of_shares_differs_from_message"
 	}
 	c.Probe("e2s_sum", fmt.Sprintf("bgv set=%s N=%d lvl=%d sigma=%g scale=%d exact_mod_t", set.name, n, lvl, sigma, scale), "C16-bgv-e2s", detail)
+	{
+		hl := fmt.Sprintf("bgv set=%s lvl=%d", set.name, lvl)
+		_, ctB := c16BGVCt(c, set, keys, lvl, scale)
+		c16History(c, "mpbgv.EncToShareProtocol.GenShare", hl, func() string { return Vec(c16T(sec[0].Value)) + " " + c16PolySnap(pub[0].Value) }, func() {
+			s2, p2 := mpbgv.NewAdditiveShare(set.bp), e2s[0].AllocateShare(lvl)
+			e2s[0].GenShare(keys.sk[0], ctB, &s2, &p2)
+		})
+		c16History(c, "mpbgv.EncToShareProtocol.GetShare", hl, func() string { return Vec(c16T(own.Value)) }, func() {
+			o2 := mpbgv.NewAdditiveShare(set.bp)
+			e2s[0].GetShare(&sec[0], agg, ctB, &o2)
+			e2s[0].GetShare(nil, agg, ctB, &o2)
+		})
+	}
 
 	// ShareToEnc at every output level
 	for lout := 0; lout <= set.maxQ(); lout++ {
@@ -381,6 +449,11 @@ func c16BGVSharing(c *Ctx, set c16BGVSet, n, lvl int, sigma float64) {
 			}
 		}
 		c.Probe("e2s_s2e_id", fmt.Sprintf("bgv set=%s N=%d lvl=%d lout=%d sigma=%g scale=%d", set.name, n, lvl, lout, sigma, scale), "C16-bgv-s2e", detail)
+		c16History(c, "mpbgv.ShareToEncProtocol.GenShare", fmt.Sprintf("bgv set=%s lout=%d", set.name, lout), func() string { return c16PolySnap(sh[0].Value) }, func() {
+			o := s2e[0].AllocateShare(lout)
+			_ = s2e[0].GenShare(keys.sk[0], crp, final[n-1], &o)
+			_ = c16SampleSigned(params, twins[0].s2eNoise, lout, false) // keep the twin of party 0's sampler in step
+		})
 		// refused calls keep their receivers
 		lab := fmt.Sprintf("bgv set=%s lout=%d", set.name, lout)
 		if ol := c16OtherLevel(set.maxQ(), lout); ol >= 0 {
@@ -532,6 +605,17 @@ func c16BGVRefresh(c *Ctx, set c16BGVSet, n, lin, lout int, sigma float64, fn *c
 
 	c16BGVRefusals = func(out *rlwe.Ciphertext) {
 		lab := fmt.Sprintf("bgv set=%s lin=%d lout=%d", set.name, lin, lout)
+		_, ctB := c16BGVCt(c, set, keys, lin, scale)
+		c16History(c, "mpbgv.MaskedTransformProtocol.GenShare", lab, func() string { return c16RefreshSnap(&shares[0]) }, func() {
+			o := protos[0].AllocateShare(lin, lout)
+			_ = protos[0].GenShare(keys.sk[0], keys.sk[0], ctB, crp, tf, &o)
+		})
+		c16History(c, "mpbgv.MaskedTransformProtocol.Transform", lab, func() string { return c16CtSnap(out) }, func() {
+			o := bgv.NewCiphertext(set.bp, 1, set.maxQ())
+			sh := protos[0].AllocateShare(lin, lout)
+			_ = protos[0].GenShare(keys.sk[0], keys.sk[0], ctB, crp, tf, &sh)
+			_ = protos[0].Transform(ctB, tf, crp, sh, o)
+		})
 		aggSnap := func() string { return c16RefreshSnap(&agg) }
 		shSnap := func() string { return c16RefreshSnap(&shares[0]) }
 		outSnap := func() string { return c16CtSnap(out) }
